@@ -629,8 +629,9 @@ class BitStream(ConstBitStream, bitstring.BitArray):
             pos += len(self)
         if pos < 0 or pos > len(self):
             raise ValueError("Overwrite starts outside boundary of bitstring.")
+        length = len(bs)  # bs might be self, whose length can be changed by the overwrite
         self._overwrite(bs, pos)
-        self._pos = pos + len(bs)
+        self._pos = pos + length
 
     def prepend(self, bs: BitsType, /) -> None:
         """Prepend a bitstring to the current bitstring.
